@@ -36,6 +36,9 @@ def run(ck):
     from ..report import RuleView
     from . import c04
     c04.ownership(RuleView(ck, {"C04.2": "C13.6"}))
+    ck.clause("C13.8", "the segment builder works with the configured --minScore and --breakSegmentThreshold: the factory passes both "
+                       "through unchanged and unexchanged (as C04.1)")
+    c04.wiring(RuleView(ck, {"C04.1": "C13.8"}))
     factory = p.find_class("AlignmentSegmentsFactory")
     finit = p.lookup_method(factory, "__init__", None)
     get = p.lookup_method(factory, "getSegments", None)
